@@ -395,6 +395,7 @@ func ExportFunction(fn *ssa.Function) []string {
 				s1 = sanitizeTypeH(x.AssertedType)
 				addOp(x.X)
 			case *ssa.MakeInterface:
+				s1 = sanitizeTypeH(x.X.Type()) // the boxed type
 				addOp(x.X)
 			case *ssa.ChangeType:
 				addOp(x.X)
